@@ -346,6 +346,10 @@ pub struct Inst {
     pub api: Vec<(usize, tokio::task::JoinHandle<String>)>,
     pub query: Option<tokio::task::JoinHandle<String>>,
     pub prev: BTreeMap<usize, SnapBucket>,
+    /// the harness's own ledger of eligible latest IP votes (C17)
+    pub votes4: HashMap<[u8; 32], SocketAddr>,
+    pub votes6: HashMap<[u8; 32], SocketAddr>,
+    pub vote_min: usize,
 }
 
 pub fn parse_mode(s: &str) -> Option<IpMode> {
@@ -417,7 +421,42 @@ impl Inst {
             api: Vec::new(),
             query: None,
             prev: BTreeMap::new(),
+            votes4: HashMap::new(),
+            votes6: HashMap::new(),
+            vote_min: vote_min.max(2),
         })
+    }
+
+    /// The harness's reading of `require_more_ip_votes` from its own vote ledger.
+    pub fn require_more(&self, is_v6: bool) -> bool {
+        if self.mode != IpMode::DualStack || !self.enr_update {
+            return false;
+        }
+        let have4 = self.votes4.len() >= self.vote_min;
+        let have6 = self.votes6.len() >= self.vote_min;
+        match ((have4, have6), is_v6) {
+            ((false, true), false) | ((true, false), true) | ((false, false), _) => true,
+            _ => false,
+        }
+    }
+
+    /// Clear majority of the ledger for one family: at least the minimum, every rival below
+    /// round(0.7 * count).
+    pub fn ledger_majority(&self, v6: bool) -> Option<SocketAddr> {
+        let votes = if v6 { &self.votes6 } else { &self.votes4 };
+        let mut counts: HashMap<SocketAddr, usize> = HashMap::new();
+        for v in votes.values() {
+            *counts.entry(*v).or_insert(0) += 1;
+        }
+        let (best, n) = counts.iter().max_by_key(|(_, c)| **c).map(|(a, c)| (*a, *c))?;
+        if n < self.vote_min {
+            return None;
+        }
+        let thr = ((n as f64) * 0.7).round() as usize;
+        if counts.iter().any(|(a, c)| *a != best && *c >= thr) {
+            return None;
+        }
+        Some(best)
     }
 
     pub fn snapshot(&self) -> BTreeMap<usize, SnapBucket> {
@@ -1320,8 +1359,9 @@ impl Runner for ServiceRunner {
                 let d = if *dir == "i" { ConnectionDirection::Incoming } else { ConnectionDirection::Outgoing };
                 let _ = self.insts[&x].hout.try_send(HandlerOut::Established(enr.clone(), a, d));
                 stats.bump("s.established");
+                let rm = if self.insts[&x].require_more(enr.udp6_socket().is_some()) { " rm=1" } else { "" };
                 let so = self.observe(x, false, false);
-                out.push(format!("!OP sest {} {} {} {}", x, rec_abs(&enr, f), sock_num(&a), dir));
+                out.push(format!("!OP sest {} {} {} {}{}", x, rec_abs(&enr, f), sock_num(&a), dir, rm));
                 self.finish(x, "sest", Some(enr.node_id().raw()), so, None, out, stats);
             }
             ["srm", _, peer] => {
@@ -1449,6 +1489,15 @@ impl Runner for ServiceRunner {
                         let id = self.insts[&x].reqs[k - 1].id.clone();
                         let resp = Response { id, body: ResponseBody::Pong { enr_seq: seq, ip: a.ip(), port } };
                         let local_before = self.insts[&x].discv5.local_enr();
+                        // eligibility of the vote, from the state before the PONG
+                        let (processed, conn_out, rm) = {
+                            let inst = &self.insts[&x];
+                            let r = &inst.reqs[k - 1];
+                            let processed = r.outstanding && !r.callback && matches!(r.body, RequestBody::Ping { .. }) && r.contact.node_address() == from;
+                            let vid = from.node_id.raw();
+                            let conn_out = inst.prev.values().any(|b| b.nodes.iter().any(|n| n.id == vid && n.conn && !n.incoming));
+                            (processed, conn_out, inst.require_more(a.is_ipv6()))
+                        };
                         let _ = self.insts[&x].hout.try_send(HandlerOut::Response(from.clone(), Box::new(resp)));
                         let so = self.observe(x, false, false);
                         let inst = self.insts.get_mut(&x).unwrap();
@@ -1456,11 +1505,49 @@ impl Runner for ServiceRunner {
                             inst.reqs[k - 1].outstanding = false;
                             stats.bump("s.pong-processed");
                         }
+                        let eligible = processed && inst.enr_update && (conn_out || rm);
+                        if eligible {
+                            stats.bump("s.c17.votes-counted");
+                            if a.is_ipv6() {
+                                inst.votes6.insert(from.node_id.raw(), a);
+                            } else {
+                                inst.votes4.insert(from.node_id.raw(), a);
+                            }
+                        } else if processed && inst.enr_update {
+                            stats.bump("s.c17.votes-ineligible");
+                        }
                         let local_after = inst.discv5.local_enr();
                         let mut vote = String::new();
+                        if rm {
+                            vote.push_str(" rm=1");
+                        }
+                        {
+                            // the advertised socket may only move to a clear majority of the eligible latest votes
+                            let s4b = local_before.udp4_socket().map(SocketAddr::V4);
+                            let s4a = local_after.udp4_socket().map(SocketAddr::V4);
+                            let s6b = local_before.udp6_socket().map(SocketAddr::V6);
+                            let s6a = local_after.udp6_socket().map(SocketAddr::V6);
+                            if s4a != s4b && (s4a.is_none() || s4a != inst.ledger_majority(false)) {
+                                out.push(format!("!MON C17 socket-changed-without-clear-majority family=4 new={:?}", s4a));
+                            }
+                            if s6a != s6b && (s6a.is_none() || s6a != inst.ledger_majority(true)) {
+                                out.push(format!("!MON C17 socket-changed-without-clear-majority family=6 new={:?}", s6a));
+                            }
+                            if !eligible && local_after != local_before {
+                                out.push("!MON C17 record-changed-by-ineligible-vote".into());
+                            }
+                            // a clear majority that differs from the advertised socket must be adopted
+                            if eligible {
+                                let m = inst.ledger_majority(a.is_ipv6());
+                                let cur = if a.is_ipv6() { s6a } else { s4a };
+                                if m.is_some() && m != cur {
+                                    out.push(format!("!MON C17 clear-majority-not-adopted majority={:?} advertised={:?}", m, cur));
+                                }
+                            }
+                        }
                         if local_after != local_before {
                             stats.bump("s.c17.local-record-changed");
-                            vote = format!(" local={}", rec_abs(&local_after, f));
+                            vote.push_str(&format!(" local={}", rec_abs(&local_after, f)));
                             if !local_after.verify() {
                                 out.push("!MON C17 local-record-signature-invalid".into());
                             }
